@@ -2,6 +2,6 @@ SPECIFICATION Spec
 CONSTANTS
   Counts = {101, 255}
   Dump = TRUE
-  Only = {"NAV-SAT", "RXM-RAWX", "AID-ALM", "CFG-VALDEL", "CFG-GNSS", "RXM-SFRBX", "CFG-RINV", "NAV-SBAS"}
+  Only = {"NAV-SAT", "RXM-RAWX", "AID-ALM", "CFG-VALDEL", "CFG-GNSS", "RXM-SFRBX", "CFG-RINV", "NAV-SBAS", "CFG-VALGET", "CFG-VALSET"}
 INVARIANT DumpLayout
 CHECK_DEADLOCK FALSE
